@@ -85,7 +85,9 @@ def do_clump(main, addr, c):
     t = {'id': c['id'], 'kind': 'clump', 'site': c['site'], 'els': [oscrt.normalise(e) for e in c['els']]}
     preds = []
     try:
-        preds = [int(addr._calc_msg_dgram_size(e)) for e in els]
+        # what _clump_bundle predicts per element: a message, or the content of a nested bundle
+        preds = [int(addr._calc_msg_dgram_size(e)) if isinstance(e[0], str) else int(addr._calc_bndl_dgram_size(e[1:]))
+                 for e in els]
     except Exception:
         preds = []
     t['pred'] = preds
